@@ -101,6 +101,81 @@ var evTypes = map[string]string{
 	"redaction": "m.room.redaction", "tpi": "m.room.third_party_invite", "custom": "org.verif.custom",
 }
 
+// customTypeNames: what the abstract event type "custom" (any type the rules do not name) is called.  The names of
+// the power-level thresholds and maps are ordinary event types as far as the rules go: an `events` entry keyed
+// "ban" is the level needed to send events of type "ban" and has nothing to do with the ban threshold.
+var customTypeNames = []string{"org.verif.custom", "ban", "org.verif.custom", "kick", "invite", "redact", "state_default",
+	"events_default", "users_default", "users", "events", "notifications", "room", "m.room.power_level", "m.room.create2"}
+
+func customTypeName(variant int) string {
+	v := variant / 4
+	if v < 0 {
+		v = -v
+	}
+	return customTypeNames[v%len(customTypeNames)]
+}
+
+func evTypeName(k string, variant int) string {
+	if k == "custom" {
+		return customTypeName(variant)
+	}
+	return evTypes[k]
+}
+
+// collidingName: in the "plnames" family the abstract event type "custom" and the notification key "here" are called
+// by the name of the threshold that the record changes (a name is just a name: the entry is that of an ordinary
+// event type / notification), or, where no threshold changes, both by one common name.
+func collidingName(sc *authScenario) string {
+	if sc.Fam != "plnames" {
+		return ""
+	}
+	o, n := &sc.St.PL.C, &sc.Ev.NewPL
+	switch {
+	case o.Ban != n.Ban:
+		return "ban"
+	case o.Kick != n.Kick:
+		return "kick"
+	case o.Invite != n.Invite:
+		return "invite"
+	case o.Redact != n.Redact:
+		return "redact"
+	case o.EventsDefault != n.EventsDefault:
+		return "events_default"
+	case o.StateDefault != n.StateDefault:
+		return "state_default"
+	case o.UsersDefault != n.UsersDefault:
+		return "users_default"
+	}
+	return "room"
+}
+
+// decorateMember adds profile members to a member event's content.  The authorisation rules read none of them, so
+// they never change a verdict - also when they have the wrong JSON type (the library parses member contents
+// tolerantly on purpose: a mistyped display name must not make the event unparseable, nor hide the members the
+// rules do read).
+func decorateMember(c map[string]interface{}, variant, salt int) map[string]interface{} {
+	v := variant/3 + salt
+	if v < 0 {
+		v = -v
+	}
+	switch v % 7 {
+	case 1:
+		c["displayname"] = "Some One"
+		c["avatar_url"] = "mxc://hs1/abc"
+	case 2:
+		c["displayname"] = false
+	case 3:
+		c["avatar_url"] = 5
+	case 4:
+		c["displayname"] = map[string]interface{}{}
+		c["is_direct"] = "yes"
+	case 5:
+		c["reason"] = []interface{}{1}
+		c["displayname"] = nil
+	}
+	return c
+}
+
 func domainOf(u string) string {
 	id := userIDs[u]
 	return id[strings.IndexByte(id, ':')+1:]
@@ -124,7 +199,7 @@ func keyFromSeed(s string) (ed25519.PublicKey, ed25519.PrivateKey) {
 }
 
 // plJSON renders an abstract power-levels content.
-func plJSON(c *absPL, lad [5]int64) json.RawMessage {
+func plJSON(c *absPL, lad [5]int64, variant int, colliding string) json.RawMessage {
 	lv := func(path string, r int) string {
 		var v int64
 		if r == 8 {
@@ -192,8 +267,18 @@ func plJSON(c *absPL, lad [5]int64) json.RawMessage {
 		bad = `"not-a-user-id":0`
 	}
 	obj("users", "users.", c.Users, func(k string) string { return userIDs[k] }, bad)
-	obj("events", "events.", c.Events, func(k string) string { return evTypes[k] }, "")
-	obj("notifications", "notif.", c.Notif, func(k string) string { return k }, "")
+	obj("events", "events.", c.Events, func(k string) string {
+		if k == "custom" && colliding != "" {
+			return colliding
+		}
+		return evTypeName(k, variant)
+	}, "")
+	obj("notifications", "notif.", c.Notif, func(k string) string {
+		if k == "here" && colliding != "" {
+			return colliding
+		}
+		return k
+	}, "")
 	return json.RawMessage("{" + strings.Join(parts, ",") + "}")
 }
 
@@ -340,7 +425,7 @@ func concretise(sc *authScenario, variant int) (*concreteAuth, error) {
 		return nil
 	}
 	if st.PL.Present {
-		if err := addState(fmt.Sprintf("pl%d", sc.PTag), "m.room.power_levels", "", userIDs["creator"], plJSON(&st.PL.C, lad)); err != nil {
+		if err := addState(fmt.Sprintf("pl%d", sc.PTag), "m.room.power_levels", "", userIDs["creator"], plJSON(&st.PL.C, lad, variant, collidingName(sc))); err != nil {
 			return nil, err
 		}
 	}
@@ -365,7 +450,7 @@ func concretise(sc *authScenario, variant int) (*concreteAuth, error) {
 		if m == "absent" {
 			continue
 		}
-		if err := addState("mem_"+u, "m.room.member", userIDs[u], userIDs[u], map[string]interface{}{"membership": m}); err != nil {
+		if err := addState("mem_"+u, "m.room.member", userIDs[u], userIDs[u], decorateMember(map[string]interface{}{"membership": m}, variant, len(u))); err != nil {
 			return nil, err
 		}
 	}
@@ -513,7 +598,7 @@ func concretise(sc *authScenario, variant int) (*concreteAuth, error) {
 			}
 			c["third_party_invite"] = map[string]interface{}{"display_name": "someone", "signed": json.RawMessage(signedJSON)}
 		}
-		je.Content = c
+		je.Content = decorateMember(c, variant, 3)
 		switch ev.Prev {
 		case "create_only":
 			je.Prev = []string{createID}
@@ -525,7 +610,7 @@ func concretise(sc *authScenario, variant int) (*concreteAuth, error) {
 	case "pl":
 		je.Type = "m.room.power_levels"
 		je.StateKey = skeyOf(ev.SKey)
-		je.Content = plJSON(&ev.NewPL, lad)
+		je.Content = plJSON(&ev.NewPL, lad, variant, collidingName(sc))
 	case "redaction":
 		je.Type = "m.room.redaction"
 		je.StateKey = skeyOf(ev.SKey)
@@ -551,7 +636,7 @@ func concretise(sc *authScenario, variant int) (*concreteAuth, error) {
 		je.StateKey = skeyOf(ev.SKey)
 		je.Content = map[string]interface{}{"body": "x"}
 	case "at_state":
-		je.Type = evTypes["custom"]
+		je.Type = customTypeName(variant)
 		je.StateKey = skeyOf(ev.SKey)
 		je.Content = map[string]interface{}{"body": "x"}
 	default:
